@@ -253,6 +253,35 @@ theorem cache_init_in_bounds (i : Int) (h1 : initLo ≤ i) (h2 : initCond i) :
   omega
 
 
+/-! ### Which of string / float64 / int64 `+` works in does not depend on the side an operand stands on -/
+
+/-- the three ways `+` can go once no list is involved -/
+inductive PlusClass where
+  | concat | float | int
+  deriving DecidableEq, Repr
+
+def plusClass (k : Kind) : PlusClass :=
+  match k with
+  | .string => .concat
+  | .float64 => .float
+  | _ => .int
+
+/-- `precedenceOfKinds` picks concatenation as soon as one operand is a string, else float64 as soon as one is a float, else int64 -
+for every pair of kinds (unsigned integers, bool and nil on the left included) and whichever side the string or float stands on. -/
+theorem plus_class_is_symmetric (k1 k2 : Kind) :
+    plusClass (precedenceOfKinds k1 k2) = plusClass (precedenceOfKinds k2 k1) := by
+  cases k1 <;> cases k2 <;> rfl
+
+theorem a_string_operand_makes_plus_concatenate (k : Kind) :
+    plusClass (precedenceOfKinds .string k) = .concat ∧ plusClass (precedenceOfKinds k .string) = .concat := by
+  cases k <;> exact ⟨rfl, rfl⟩
+
+theorem a_float_operand_makes_plus_float (k : Kind) (hk : k ≠ .string) :
+    plusClass (precedenceOfKinds .float64 k) = .float ∧ plusClass (precedenceOfKinds k .float64) = .float := by
+  cases k <;> first | exact ⟨rfl, rfl⟩ | exact absurd rfl hk
+
+example : plusClass (precedenceOfKinds .bool .float64) = .float ∧ plusClass (precedenceOfKinds .iface .string) = .concat := by decide
+
 /-! ### The operator switches of vm/vmOperator.go, arm by arm (regenerated: Gen/Operators)
 
 What each `case "<op>":` does once both operands are evaluated - every assignment to the result, every early return, every guard -
